@@ -354,6 +354,7 @@ func (*socket) Info() protocol.Info {
 
 func (s *socket) AddPipe(pp protocol.Pipe) error {
 
+	s.Lock()
 	p := &pipe{
 		p:      pp,
 		s:      s,
@@ -361,7 +362,6 @@ func (s *socket) AddPipe(pp protocol.Pipe) error {
 		closeQ: make(chan struct{}),
 	}
 	pp.SetPrivate(p)
-	s.Lock()
 	if s.closed {
 		s.Unlock()
 		return protocol.ErrClosed
